@@ -48,7 +48,9 @@ func (b *exampleBuilder) Build(node internalSchema.Node) ([]byte, error) {
 }
 
 func (b *exampleBuilder) buildExampleForObjectNode(node *internalSchema.ObjectNode) ([]byte, error) {
-	if node.Constraint(constraint.TypesListConstraintType) != nil {
+	// An empty object may carry an "or" rule of built-in types (ex:
+	// `{} // {or: [{type: "object"}, {type: "string"}]}`), it is its own example.
+	if node.Constraint(constraint.TypesListConstraintType) != nil && node.Len() != 0 {
 		return nil, errors.ErrUserTypeFound
 	}
 
@@ -106,7 +108,8 @@ func (b *exampleBuilder) buildObjectKey(k internalSchema.ObjectNodeKey) ([]byte,
 }
 
 func (b *exampleBuilder) buildExampleForArrayNode(node *internalSchema.ArrayNode) ([]byte, error) {
-	if node.Constraint(constraint.TypesListConstraintType) != nil {
+	// The same for an empty array.
+	if node.Constraint(constraint.TypesListConstraintType) != nil && node.Len() != 0 {
 		return nil, errors.ErrUserTypeFound
 	}
 
